@@ -260,7 +260,10 @@ class Check(PropertyCheck):
                 # from the centre by D * ulp across the needle, i.e. by D * ulp / (short semi-axis) in normalised units
                 ang = abs(dd['angle'][0]) * {'deg': math.pi / 180, 'rad': 1.0, 'arcmin': math.pi / 10800, 'hourangle': math.pi / 12}[dd['angle'][1]]
                 dist = math.hypot(p[0] - dd['c'][0], p[1] - dd['c'][1]) + max(dd['w'], dd['h'])
-                thr = max(MARGIN, 1e-12 * max(ang, 1.0) * dist / min(dd['w'], dd['h']))
+                # ... and the rounding of the coordinates themselves (an ulp of the largest coordinate) is of the order of
+                # the needle's width when the shape sits far from the origin
+                big = max(abs(dd['c'][0]), abs(dd['c'][1]), abs(p[0]), abs(p[1]), 1.0)
+                thr = max(MARGIN, 1e-12 * max(ang, 1.0) * dist / min(dd['w'], dd['h']), 16 * 2.3e-16 * big / min(dd['w'], dd['h']))
             return thr
         for p, ra, (sa, mg) in zip(case['pts'], real['ans'], spec):
             if mg < threshold(p):
